@@ -450,7 +450,37 @@ fn bucket(pos: u64, total: u64) -> u64 {
     if total == 0 { 0 } else { (pos.min(total) * 16) / total.max(1) }
 }
 
-fn observe_state(cx: &mut Ctx, sc: &Scenario, st: &TransactionState, pos: u64, cost: u64) {
+/// A captured state in which a pipe transfer is possible but was not carried out: a reader and a
+/// writer blocked on the two ends of one pipe, or a VM blocked on a pipe whose other end is
+/// closed. Scheduler::process_io resolves exactly these at the end of every iteration, so such
+/// a state means the iteration was cut short before process_io ran.
+fn has_unprocessed_io(s: &ckb_script::types::FullSuspendedState) -> bool {
+    let open: std::collections::BTreeSet<u64> = s.fds.iter().map(|(fd, _)| fd.0).collect();
+    let mut readers = std::collections::BTreeSet::new();
+    let mut writers = std::collections::BTreeSet::new();
+    for (_, st, _) in &s.vms {
+        match st {
+            VmState::WaitForRead(r) => {
+                if !open.contains(&(r.fd.0 ^ 1)) {
+                    return true;
+                }
+                readers.insert(r.fd.0);
+            }
+            VmState::WaitForWrite(w) => {
+                if !open.contains(&(w.fd.0 ^ 1)) {
+                    return true;
+                }
+                writers.insert(w.fd.0);
+            }
+            _ => {}
+        }
+    }
+    readers.iter().any(|r| writers.contains(&(r ^ 1)))
+}
+
+/// returns true when the state has unprocessed pipe io (see above)
+fn observe_state(cx: &mut Ctx, sc: &Scenario, st: &TransactionState, pos: u64, cost: u64) -> bool {
+    let mut unprocessed = false;
     let pid = prog_id(&sc.program);
     match &st.state {
         None => {
@@ -479,10 +509,14 @@ fn observe_state(cx: &mut Ctx, sc: &Scenario, st: &TransactionState, pos: u64, c
             if !s.terminated_vms.is_empty() {
                 cx.res.probes.inc("suspended_with_unreaped_terminated_vm");
             }
+            if has_unprocessed_io(s) {
+                cx.res.probes.inc("suspended_with_unprocessed_pipe_io");
+                unprocessed = true;
+            }
             // suspend() itself adds one SPAWN_EXTRA_CYCLES_BASE per instantiated VM before it
             // records iteration_cycles; anything beyond that was pending from the last iteration
             if s.iteration_cycles != 100_000 * s.instantiated_ids.len() as u64 {
-                cx.res.probes.inc("suspended_with_pending_iteration_cycles");
+                cx.res.probes.inc("suspended_with_iteration_cycles_beyond_vm_swap_out_cost");
             }
             if s.vms.iter().any(|(_, _, snap)| !snap.pages_from_source.is_empty()) {
                 cx.res.probes.inc("suspended_with_lazily_loaded_pages");
@@ -501,6 +535,7 @@ fn observe_state(cx: &mut Ctx, sc: &Scenario, st: &TransactionState, pos: u64, c
     if st.current > 0 {
         cx.res.probes.inc("suspended_in_later_group");
     }
+    unprocessed
 }
 
 // ------------------------------------------------------------------ op execution
@@ -512,6 +547,7 @@ fn check_against_ref(
     rf: &Reference,
     class_prefix: &str,
     desc: &str,
+    locus: &str,
 ) {
     if !got.same_as(&rf.verdict) {
         // class = kind of difference + API path + (reference kind -> observed kind) + a marker
@@ -524,7 +560,7 @@ fn check_against_ref(
                 } else {
                     "other"
                 };
-                format!("{class_prefix}cycles_differ:{what}:{m}")
+                format!("{class_prefix}cycles_differ:{what}:{m}{locus}")
             }
             _ => {
                 let marker = match got {
@@ -532,7 +568,7 @@ fn check_against_ref(
                     _ => "",
                 };
                 format!(
-                    "{class_prefix}verdict_differs:{what}:{}->{}{marker}",
+                    "{class_prefix}verdict_differs:{what}:{}->{}{marker}{locus}",
                     rf.verdict.kind(),
                     got.kind()
                 )
@@ -572,6 +608,7 @@ fn exec_chunks(
     let mut last_sig: Option<(usize, u64, u64)> = None;
     let mut stalled = 0u32;
     let mut used_complete = false;
+    let mut unprocessed_io = false;
     let mut i = 0usize;
     let final_verdict: Verdict = loop {
         let (budget, finishing) = if i < budgets.len() {
@@ -674,7 +711,9 @@ fn exec_chunks(
                         };
                     }
                 }
-                observe_state(cx, sc, &st, consumed, cost);
+                if observe_state(cx, sc, &st, consumed, cost) {
+                    unprocessed_io = true;
+                }
                 state = Some(st);
                 if !finishing && rebuild.get(i).copied().unwrap_or(false) {
                     // (ii) only the captured state survives
@@ -701,12 +740,14 @@ fn exec_chunks(
     if interrupted {
         cx.res.nontrivial = true;
     }
+    // locus of a difference: a state captured before Scheduler::process_io had run
+    let locus = if unprocessed_io { ":after_suspend_with_unprocessed_io" } else { "" };
     if finish == "complete" {
         if !used_complete {
             // ended inside the listed step budgets, complete() was never called (a chunk may
             // consume more than its step budget through unchecked syscall charges, so budgets
             // summing to less than the cost can be enough): plain comparison
-            check_against_ref(cx, "chunks", &final_verdict, rf, "", &desc);
+            check_against_ref(cx, "chunks", &final_verdict, rf, "", &desc, locus);
             return;
         }
         match rf.cost {
@@ -722,15 +763,15 @@ fn exec_chunks(
                     );
                 }
             }
-            Some(_) => check_against_ref(cx, "complete", &final_verdict, rf, "", &desc),
+            Some(_) => check_against_ref(cx, "complete", &final_verdict, rf, "", &desc, locus),
             None => {
                 if rf.verdict.kind() != "ExceededMaximumCycles" || complete_budget >= env.max_cycles {
-                    check_against_ref(cx, "complete", &final_verdict, rf, "", &desc)
+                    check_against_ref(cx, "complete", &final_verdict, rf, "", &desc, locus)
                 }
             }
         }
     } else {
-        check_against_ref(cx, "chunks", &final_verdict, rf, "", &desc);
+        check_against_ref(cx, "chunks", &final_verdict, rf, "", &desc, locus);
     }
 }
 
@@ -775,7 +816,7 @@ fn exec_budget(cx: &mut Ctx, env: &Env, rf: &Reference, api: &str, budget: u64) 
         }
         Some(_) => {
             cx.res.probes.inc("budget_at_or_above_cost");
-            check_against_ref(cx, api, &got, rf, "budget:", &desc)
+            check_against_ref(cx, api, &got, rf, "budget:", &desc, "")
         }
         None => {}
     }
@@ -977,7 +1018,14 @@ fn exec_signals(
         return;
     }
     if st.stop_delivered {
+        // the VM (or its script group) ended before the next pause-flag check. The Stop was
+        // taken by the parent task while that group was running, so later groups run normally;
+        // an Interrupts result is tolerated as well (a Stop is allowed to win late)
         cx.res.probes.inc("stop_lost_race_with_completion");
+        if got.kind() == "Interrupts" {
+            cx.res.probes.inc("stop_unnoticed_yet_interrupted");
+            return;
+        }
     }
     match rf.cost {
         Some(c) if limit < c => {
@@ -997,7 +1045,7 @@ fn exec_signals(
             if rf.cost.is_none() && rf.verdict.kind() == "ExceededMaximumCycles" && limit < env.max_cycles {
                 return;
             }
-            check_against_ref(cx, "signal", &got, rf, "", &desc)
+            check_against_ref(cx, "signal", &got, rf, "", &desc, "")
         }
     }
 }
